@@ -272,6 +272,15 @@ func (r *Report) Finish(verifDir, repo string, stats interface{}, configs []stri
 		}
 	}
 	expl := explanations[r.Prop]
+	// the rule list of this run, with each rule's one-line statement (rules added after the first
+	// write-up of the explanation are only named here)
+	{
+		var parts []string
+		for _, name := range r.order {
+			parts = append(parts, name+": "+r.rules[name].Doc)
+		}
+		expl += " RULES APPLIED IN THIS RUN: " + strings.Join(parts, "; ") + "."
+	}
 	cov := map[string]interface{}{
 		"explanation":         expl,
 		"obligations":         len(r.Obs),
